@@ -119,6 +119,13 @@ CHECKS.update({
             "deterministic simulation: stateful component vs executable reference model with reopen as generated operation", "§5 C26"),
 })
 
+CHECKS.update({
+    "C32": ("F (cmd): the real vrps / validate / update / server commands as subprocesses with scripted run outcomes", "fault_enumeration",
+            "All sequences over {ok, retryable failure, fatal failure} up to length 4 (server: 3 in quick) for vrps, validate, update and server, each executed by the real Operation::run in a child process with the run outcome forced at the start of ValidationReport::process; the number of started runs, the exit status and a run-count watchdog (exit 97) decide. Exhaustive to the stated bound.",
+            "The child is the harness binary performing exactly what src/main.rs does; no TALs so unforced runs succeed immediately; the server is observed through its run log and exit status only.",
+            "deterministic simulation: exhaustive enumeration of run-outcome (fault) sequences to a bound against the real command loop", "§5 C32"),
+})
+
 NOT_APPLICABLE = {
     "C11": "pure function of two data sets: no schedule, clock, fault, crash point or peer can change its outcome (DESIGN §5)",
     "C18": "serialiser: pure function of (change set, session, serials); no simulated dimension influences it",
